@@ -62,6 +62,9 @@ func (r *Rand) Chance(n int) bool { return r.Intn(n) == 0 }
 func (r *Rand) Byte() byte { return byte(r.Uint64()) }
 
 func (r *Rand) Bytes(n int) []byte {
+	if n == 0 && r.Bool() {
+		return nil // "no bytes" comes as nil as often as it comes as an empty slice
+	}
 	b := make([]byte, n)
 	r.Fill(b)
 	return b
